@@ -10,8 +10,9 @@ ops:
    → {"events":[["r",n]|["i",m,id]|["p",m,rule,id]…],
       "logs":[[[rule,id,[shallow field values…]]…]…], "finals":[W…]}   (W: V without attribute metadata)
    → {"err":"not-wf"} when some model does not have the shape the theorems assume
-  {"op":"proc_error","kind":"objRoot"|"objInner"|"mtch","wrapped":bool,
-   "raised":"other"|{"f":n|null,"l":n|null,"c":n|null,"n":n|null},"site":{"f":n|null,"l":n,"c":n,"n":n}}
+  {"op":"proc_error","kind":"obj"|"mtch","wrapped":bool,
+   "raised":"other"|{"f":n|null,"l":n|null,"c":n|null,"n":n|null},"site":{"f":n|null,"l":n,"c":n,"n":n},
+   "pinned"?:bool}
    → {"textx":{"f","l","c","n"}} | {"other":true}
 -/
 open Lean Wire Proc
@@ -144,8 +145,7 @@ def handle (j : Json) : Json :=
     | _, _, _, _, _, _ => badOp
   | some "proc_error" =>
     let kind : Option PKind := match getStr? j "kind" with
-      | some "objRoot" => some .objRoot
-      | some "objInner" => some .objInner
+      | some "obj" => some .obj
       | some "mtch" => some .mtch
       | _ => none
     let raised : Option Raised := match j.getObjVal? "raised" with
@@ -157,7 +157,9 @@ def handle (j : Json) : Json :=
       pure ⟨← optNat s "f", ← getNat? s "l", ← getNat? s "c", ← getNat? s "n"⟩
     match kind, getBool? j "wrapped", raised, site with
     | some k, some w, some r, some s =>
-      match outcome k s w r with
+      -- "pinned":true evaluates the enrichment as it was before the repair (used once to validate
+      -- `wrap`/`given` against the unrepaired tree, where the two paths are distinguishable)
+      match (if getBool? j "pinned" == some true then outcomePinned k s w r else outcome k s w r) with
       | .other => Json.mkObj [("other", true)]
       | .textx l => Json.mkObj [("textx", Json.mkObj [("f", optJson l.filename), ("l", optJson l.line),
                                                      ("c", optJson l.col), ("n", optJson l.nchar)])]
